@@ -263,6 +263,8 @@ def r13_2(ctx, prog, crate):
     ctx.check(any(z.kind == "call" and z.b == al[0].bb for z in b.prov.op_src(pos[0].args[0])) and nophi(b.prov.op_src(pos[0].args[0])), "R13.2", ["is_match", "searches-all-filters"],
               "position() does not search filters.all()", pos[0].line())
     sw = tables.switch_on_call_result(b, pos[0])
+    if sw is None and _r13_2_map_or(ctx, prog, crate, b, pos[0], al[0], si[0]):
+        return _r13_2_accessors(ctx, prog, crate)
     if not ctx.check(sw is not None, "R13.2", ["is_match", "match-on-position"], "no match on the position() result", pos[0].line()):
         return
     bi, t = sw
@@ -321,6 +323,63 @@ def r13_2(ctx, prog, crate):
             d = direct_place(x, {"k": "copy", "p": {"l": 0, "proj": [], "ty": ""}})
             ok = ok and not any(z.kind in ("unop", "binop") for z in x.prov.local_src(0))
         ctx.check(ok, "R13.2", ["is_match", "predicate-is-filter-match-on-path"], "the position predicate is not |f| f.is_match(entry_path)", x.where(0))
+    _r13_2_accessors(ctx, prog, crate)
+
+
+def _r13_2_map_or(ctx, prog, crate, b, pos, al, si):
+    """`position(..).map_or(len == split, |index| index >= split)`: the same two rows as the match, as a combinator."""
+    from lib.patheval import PathEval
+    from lib.symexpr import canon_cmp
+    sums = PathEval(b).run()
+    if not sums or len(sums) != 1 or sums[0].conds:
+        return False
+    r = sums[0].ret
+    if not (r[0] == "site" and r[1] == "std::option::Option::map_or" and len(r[3]) == 3):
+        return False
+    src, dflt, _clo = r[3]
+    if not (src[0] == "site" and src[2] == pos.bb):
+        return False
+    split = ("site", "util::split_vec::SplitVec::split_index", si.bb, (("sptr", (1, ("filters",))),))
+    atom, pol = canon_cmp(dflt, unsigned=False)
+    ok_d = atom is not None and pol and atom[0] == "Eq" and split in atom[1:] and any(
+        x[0] in ("call", "site") and x[1].rsplit("::", 1)[-1] == "len" and ("'ret', 'util::split_vec::SplitVec::all', %d" % al.bb) in str(x) for x in atom[1:])
+    ctx.check(ok_d, "R13.2", ["is_match", "unmatched-row"], "when nothing matches the result is not len == split (no inclusive filters)", pos.line())
+    # the mapping closure: index >= split, with split the captured split_index()
+    mo = [c for c in b.live_calls() if c.callee == "std::option::Option::map_or"]
+    clo = None
+    if len(mo) == 1 and len(mo[0].args) == 3 and mo[0].args[2].get("k") in ("copy", "move"):
+        for d in b.prov.defs.get(mo[0].args[2]["p"]["l"], []):
+            if d[0] == "S" and d[3]["rv"]["k"] == "agg" and d[3]["rv"].get("ak") == "closure":
+                clo = prog.bodies.get((b.crate, norm(d[3]["rv"]["def"]), -1))
+                cap = d[3]["rv"]["ops"]
+    ok_m = False
+    if clo is not None:
+        cs = PathEval(clo).run()
+        if cs and len(cs) == 1 and not cs[0].conds:
+            a2, p2 = canon_cmp(cs[0].ret, unsigned=False)
+            idx, up = ("arg", 2, ()), ("upvar", 0, (0,))
+            # index >= split  ==  not (index < split)
+            ok_m = a2 is not None and a2 == ("Lt", idx, up) and p2 is False
+            ok_m = ok_m and len(cap) == 1 and any(z.kind == "call" and z.b == si.bb for z in b.prov.op_src(cap[0]))
+    ctx.check(ok_m, "R13.2", ["is_match", "matched-row"], "when a filter matches the result is not index >= split (the inclusive half)", pos.line())
+    # the position predicate
+    pcl = None
+    if len(pos.args) == 2 and pos.args[1].get("k") in ("copy", "move"):
+        for d in b.prov.defs.get(pos.args[1]["p"]["l"], []):
+            if d[0] == "S" and d[3]["rv"]["k"] == "agg" and d[3]["rv"].get("ak") == "closure":
+                pcl = prog.bodies.get((b.crate, norm(d[3]["rv"]["def"]), -1))
+    okp = False
+    if pcl is not None:
+        cs = [c for c in pcl.live_calls() if c.callee == "config::filter::Filter::is_match"]
+        okp = len(cs) == 1 and len(pcl.live_calls()) == 1 and {z.label() for z in pcl.prov.op_src(cs[0].args[0]) if z.kind == "param"} == {"param:" + pcl.param_name(2)}
+        capo = prog.capture_operand(pcl, pcl.captures[0]) if okp and pcl.captures else None
+        okp = okp and capo is not None and {z.label() for z in capo[0].prov.op_src(capo[1])} == {"param:" + b.param_name(2)}
+    ctx.check(okp, "R13.2", ["is_match", "predicate-is-filter-match-on-path"], "the position predicate is not |f| f.is_match(entry_path)", pos.line())
+    ctx.check(any(z.kind == "call" and z.b == al.bb for z in b.prov.op_src(pos.args[0])), "R13.2", ["is_match", "searches-all-filters"], "position() does not search filters.all()", pos.line())
+    return True
+
+
+def _r13_2_accessors(ctx, prog, crate):
     # the accessors is_match and insert rely on: all() is the whole items slice, split_index() the stored index, set_split_index stores its argument
     from lib.patheval import PathEval as _PE
     SV = "util::split_vec::SplitVec::"
